@@ -164,7 +164,16 @@ def classes():
         "signals": [_meth("ivalChanged")],
         "slots": [_meth("setIval", args=[("int", "v")])],
     }
-    return [vf, sub, other]
+    # a widget with a second, unresolvable public base (an interface class without type information): it IS a QWidget and
+    # nothing else; the dangling base must neither hide QWidget's members nor make it convertible to unrelated classes
+    plot = {
+        "className": "VfPlot", "qualifiedClassName": "VfPlot", "object": True,
+        "superClasses": [{"access": "public", "name": "QWidget"}, {"access": "public", "name": "IPlotDelegate"}],
+        "properties": [_prop("level", "int", "level", "setLevel", "levelChanged", False)],
+        "signals": [_meth("levelChanged")],
+        "slots": [_meth("setLevel", args=[("int", "v")])],
+    }
+    return [vf, sub, other, plot]
 
 
 def write(path):
